@@ -1125,6 +1125,21 @@ def r40_and_then(src, item, ed, opts):
             ed.replace(cn["body"][1], n["range"][1], "), None => None })", "R40")
             ed.count("R40")
             continue
+        if n["method"] == "filter" and len(n["args"]) == 1 and opts.get("option_map"):
+            # (same opt-in) `O.filter(|P| E)` -> `(match O { Some(f) => { let keep = { let P = &f; E }; if keep { Some(f) }
+            # else { None } }, None => None })`: the definition of Option::filter
+            cn = clos.get(tuple(n["args"][0]["range"]))
+            if cn is None or len(cn["inputs"]) != 1:
+                continue
+            body = re.sub(r'"(?:[^"\\\\]|\\\\.)*"', '""', src.text(*cn["body"]))
+            if "?" in body or re.search(r"\breturn\b", body):
+                raise Unsupported("R40: `?`/`return` inside a filter closure")
+            pat = src.text(*cn["inputs"][0]["range"])
+            ed.insert(n["range"][0], "(match ", "R40", prio=-(n["range"][1] - n["range"][0]))
+            ed.replace(n["receiver"][1], cn["body"][0], f" {{ Some(vx_f) => {{ let vx_keep = {{ let {pat} = &vx_f; ", "R40")
+            ed.replace(cn["body"][1], n["range"][1], " }; if vx_keep { Some(vx_f) } else { None } }, None => None })", "R40")
+            ed.count("R40")
+            continue
         if n["method"] == "and_then" and len(n["args"]) == 1:
             ca, dflt = n["args"][0], None
         elif n["method"] == "map_or" and len(n["args"]) == 2:
